@@ -21,6 +21,7 @@ def explicit(tier, seed):
                 for shape in ("top", "branch", "child"):
                     if tier == "quick" and rng.random() < 0.55:
                         continue
+                    res_i = res
                     if kind == "cb":
                         node = {"k": "cb", "between": rng.choice([[], [{"k": "step", "val": 5}], [{"k": "step", "val": 1}, {"k": "wait", "s": 1}]]),
                                 "cfg": rng.choice([None, {"timeout": 60, "heartbeat": 10}, {"serdes": "json"} if (res and res[0] in '"{[n') else None])}
@@ -31,7 +32,15 @@ def explicit(tier, seed):
                             node.pop("retry")
                     else:
                         node = {"k": "invoke", "fn": "target-%d" % rng.randrange(5), "payload": rng.choice([None, "", {"a": 1}, [1, "x"], "é", 0]),
-                                "cfg": rng.choice([None, {"timeout": 30}, {"tenant": "tenant-9", "timeout": 5}])}
+                                "cfg": rng.choice([None, {"timeout": 30}, {"tenant": "tenant-9", "timeout": 5}, {"serdes_payload": "tagged"},
+                                                   {"serdes_result": "tagged"}, {"serdes_payload": "tagged", "serdes_result": "utf8json"},
+                                                   {"serdes_payload": "utf8json", "serdes_result": "tagged", "tenant": "t"}])}
+                        if (node["cfg"] or {}).get("serdes_result") == "tagged" and res is not None:
+                            try:
+                                __import__("json").loads(res)
+                                res_i = "TAG:" + res
+                            except ValueError:
+                                node["cfg"] = dict(node["cfg"], serdes_result=None)
                     wrapped = {"k": "try", "body": node, "catch": "*"}
                     body = [{"k": "step", "val": "pre"}, wrapped, {"k": "step", "val": "post"}]
                     cpath = "1"
@@ -42,8 +51,8 @@ def explicit(tier, seed):
                         body = [{"k": "child", "body": body}]
                         cpath = "0/1"
                     rule = {"when": when, "status": st}
-                    if res is not None:
-                        rule["result"] = res
+                    if res_i is not None:
+                        rule["result"] = res_i
                     if st != "SUCCEEDED":
                         rule["error"] = rng.choice([ERR, {"ErrorMessage": "only message"}, None])
                         if rule["error"] is None:
